@@ -30,6 +30,7 @@ type Scenario struct {
 	Note       string                `json:"note"`
 	TimeoutMs  int                   `json:"timeout_ms,omitempty"`
 	LeakWaitMs int                   `json:"leak_wait_ms,omitempty"`
+	ParseTP    bool                  `json:"parse_tp,omitempty"`
 	Result     *ur.Result            `json:"result,omitempty"`
 	Crashed    bool                  `json:"crashed,omitempty"`
 	Stderr     string                `json:"stderr,omitempty"`
@@ -38,7 +39,7 @@ type Scenario struct {
 func (s *Scenario) cmd() *ur.Cmd {
 	return &ur.Cmd{Cmd: "exec", ID: s.ID, Query: s.Query, Vars: s.Vars, Plan: s.Plan, DirPlan: s.DirPlan,
 		Sched: s.Sched, Order: s.Order, CancelAt: s.Cancel, Mode: s.Mode, LeakCheck: s.Leak,
-		TimeoutMs: s.TimeoutMs, LeakWaitMs: s.LeakWaitMs}
+		TimeoutMs: s.TimeoutMs, LeakWaitMs: s.LeakWaitMs, ParseTP: s.ParseTP}
 }
 
 // FetchSchema asks a probe binary for its schema JSON.
